@@ -7,6 +7,9 @@
 //	    stored value before and after the real handler is recorded.
 //	(b) c17.life — sequences of submit / vote / next block / committee change+delete / transfers on the real
 //	    keeper, msg server, gov-routed committee handler and BeginBlocker; one self-contained case per step.
+//	    Proposal contents read and write shared state (the community module's Kava Lend position, the whole cdp
+//	    DebtParam record under one-field permissions); bursts make several proposals finish in the same block;
+//	    every begin block is replayed by the harness itself to record the state at each closed proposal's turn.
 //
 // encoding/json is a trusted dependency: documents are handed to the Lean driver as encoding/json's own
 // tokenizer reads them (jsontree.go).
